@@ -611,6 +611,8 @@ class C10:
                     ms_ = [P.rb(rng, rng.choice([0, 1, 7, 32])) for _ in range(Lc)]
                     hd_ = rng.choice(["N", "S", "S" + P.rb(rng, 5).hex()])
                     add("sign %s %s %s %s %s" % (suite, tb(skd), tb(rk.b(0)), hd_, tl(ms_)), "sign-count")
+                for hl_ in (255, 256, 4095, 4096, 4097, 10000, 65535, 65536):
+                    add("sign %s %s %s S%s %s" % (suite, tb(skd), tb(rk.b(0)), P.rb(rng, hl_).hex(), tl([b"m"])), "sign-header-len")
         stats["differential"] = len(lines)
         res_d = S.run(lines, label=labs)
         # ... and the verifier's decision on each of those signatures and on the same signature with its LAST / FIRST message replaced
@@ -639,6 +641,11 @@ class C10:
                 for k_ in (1, 2):
                     at = pyc.g1_plus_torsion(f["sig"][:48], k_)
                     if at: dl += ["verify %s %s %s %s %s" % (suite, tb(f["pk"]), tb(at + f["sig"][48:]), tob(f["header"]), tl(f["msgs"])), "dec sig %s" % tb(at + f["sig"][48:])]
+            # proof verifier: index lists that are not strictly ascending (descending, repeated), messages in either order
+            for pp_ in P.honest_proofs(S, [(f_, [0, 2], b"p") for f_ in flows if len(f_["msgs"]) >= 3][:2]):
+                m0_, m2_ = pp_["msgs"][0], pp_["msgs"][2]
+                for D_, dm_ in (([2, 0], [m2_, m0_]), ([2, 0], [m0_, m2_]), ([0, 0, 2], [m0_, m0_, m2_]), ([0, 0, 2], [m0_, m2_]), ([0, 2, 2], [m0_, m2_, m2_]), ([0, 2], [m0_, m2_])):
+                    dl.append(P.pv_line(pp_, D=D_, dmsgs=dm_))
             bfl_ = P.blind_flows(S, suite, keys, [(3, 2, b"h")])
             for bp_ in P.blind_proofs(S, [(b_, [0], [1], b"p") for b_ in bfl_]):
                 dl.append(P.bpv_line(bp_))
